@@ -196,6 +196,19 @@ func (d *c05drv) pairOp(op string, ps, qs []c05pt, split int) {
 				out, pm, pk = d.finalExp(f1, out[0])
 			}
 		}
+	case "MillerLoopFEeach":
+		// one Miller loop per pair, a single FinalExponentiation of all of them (the variadic form with >= 3 operands)
+		var fs []reflect.Value
+		for i := 0; i < P.Len() && !pk; i++ {
+			out, pm, pk = call(d.c.Funcs["MillerLoop"], P.Slice(i, i+1), Q.Slice(i, i+1))
+			if pk || !out[1].IsNil() {
+				break
+			}
+			fs = append(fs, out[0])
+		}
+		if !pk && len(fs) == P.Len() {
+			out, pm, pk = d.finalExp(fs...)
+		}
 	default:
 		fatal("c05: unknown op %s", op)
 	}
@@ -276,6 +289,9 @@ func (d *c05drv) battery(ps, qs []c05pt, level int) {
 	d.pairOp("MillerLoopFE", ps, qs, 0)
 	if k >= 2 {
 		d.pairOp("MillerLoopFE2", ps, qs, 1+d.rng.Intn(k-1))
+	}
+	if k >= 3 && len(qs) == k {
+		d.pairOp("MillerLoopFEeach", ps, qs, 0)
 	}
 	d.pairOp("MillerLoopDirectFE", ps, qs, 0)
 	d.fixedOp("PairingCheckFixedQ", ps, d.linesFor(qs))
